@@ -49,6 +49,15 @@ pub struct Tape {
     pub entries: [BTreeMap<u32, Fault>; 2],
     /// from this ordinal on, every datagram of the direction is dropped (blackhole / crashed peer)
     pub blackhole_from: [Option<u32>; 2],
+    /// NAT rebinding: from this client->server ordinal on, the client's datagrams reach the server from another
+    /// source address (`NAT_ALT`), and what the server sends there reaches the client; the client notices nothing
+    #[serde(default)]
+    pub rebind_from: Option<u32>,
+}
+
+/// the client's public address after a NAT rebinding
+pub fn nat_alt() -> SocketAddr {
+    "127.0.0.7:7777".parse().unwrap()
 }
 
 impl Tape {
@@ -147,6 +156,19 @@ pub struct NetInner {
     /// sends while unvalidated that left less than one full datagram of budget
     pub amp_blocked_sends: u64,
     pub server_validated_at: Option<u64>,
+    /// the client's real address once a rebinding happened
+    pub nat_real: Option<SocketAddr>,
+    /// when the server's validation of the rebound address completed (its first PATH_RESPONSE received after the rebinding)
+    pub alt_validated_at: Option<u64>,
+    /// worst excess towards the rebound, not yet validated address: (sent, received, at, of `sent` in short-header datagrams)
+    pub amp_violation_rebound: Option<(u64, u64, u64, u64)>,
+    /// the largest `alt_data_bytes - 3 * received` seen before validation, with (data bytes, received)
+    pub alt_data_excess: Option<(u64, u64)>,
+    /// bytes the server sent to the rebound address in datagrams that start with a short-header packet
+    pub alt_sent_short: u64,
+    /// bytes of 1-RTT packets the server sent on the rebound path before its validation that carry anything but path
+    /// probes (PATH_CHALLENGE / PATH_RESPONSE / PADDING / PING) — from the server's event log
+    pub alt_data_bytes: u64,
     pump_waker: Option<Waker>,
     pub delivered: [u64; 2],
     pub tampered_delivered: u64,
@@ -188,6 +210,12 @@ impl SimNet {
                 amp_violation: None,
                 amp_blocked_sends: 0,
                 server_validated_at: None,
+                nat_real: None,
+                alt_validated_at: None,
+                amp_violation_rebound: None,
+                alt_data_excess: None,
+                alt_sent_short: 0,
+                alt_data_bytes: 0,
                 pump_waker: None,
                 delivered: [0; 2],
                 tampered_delivered: 0,
@@ -245,6 +273,16 @@ impl SimNet {
         let ord = inner.ordinals[dir];
         inner.ordinals[dir] += 1;
         inner.last_activity_ms[dir] = now_ms;
+        // NAT rebinding: the client's datagrams leave from another public address
+        let src = if dir == C2S && self.tape.rebind_from.is_some_and(|r| ord >= r) {
+            if inner.nat_real.is_none() {
+                inner.nat_real = Some(src);
+                Self::bump(inner, "fault.nat_rebinding");
+            }
+            nat_alt()
+        } else {
+            src
+        };
         // C15 ledger: counted at the moment the endpoint hands bytes to the network
         let led = inner.ledger.entry((src, dst)).or_default();
         led.sent += data.len() as u64;
@@ -257,6 +295,18 @@ impl SimNet {
                 let worse = inner.amp_violation.is_none_or(|(ps, pr, _)| s - 3 * r > ps - 3 * pr);
                 if worse {
                     inner.amp_violation = Some((s, r, now_ms));
+                }
+            }
+        }
+        if src == self.server_addr && dst == nat_alt() && inner.alt_validated_at.is_none() {
+            if data.first().is_some_and(|b| b & 0x80 == 0) {
+                inner.alt_sent_short += data.len() as u64;
+            }
+            let led = inner.ledger.get(&(src, dst)).map(|l| (l.sent, l.rcvd)).unwrap_or((0, 0));
+            if led.0 > 3 * led.1 {
+                let worse = inner.amp_violation_rebound.is_none_or(|(ps, pr, _, _)| led.0 - 3 * led.1 > ps - 3 * pr);
+                if worse {
+                    inner.amp_violation_rebound = Some((led.0, led.1, now_ms, inner.alt_sent_short));
                 }
             }
         }
@@ -388,7 +438,9 @@ impl SimNet {
             }
             let Reverse(f) = inner.heap.pop().unwrap();
             let dir = if f.dst == self.server_addr { C2S } else { S2C };
-            if let Some(ep) = inner.endpoints.get_mut(&f.dst) {
+            // what the server sends to the rebound address reaches the client behind the NAT
+            let home = if f.dst == nat_alt() { inner.nat_real.unwrap_or(f.dst) } else { f.dst };
+            if let Some(ep) = inner.endpoints.get_mut(&home) {
                 inner.delivered[dir] += 1;
                 let now_ms = now.saturating_duration_since(self.start).as_millis() as u64;
                 inner.last_delivered_ms[1 - dir] = now_ms;
@@ -416,6 +468,28 @@ impl SimNet {
                 }
                 None => PumpWait { net: &self, armed: false }.await,
             }
+        }
+    }
+
+    /// the server's event log reports a 1-RTT packet of `len` bytes sent on the rebound path carrying more than probes
+    pub fn note_alt_data(&self, len: u64) {
+        let mut g = self.inner.lock().unwrap();
+        if g.nat_real.is_none() || g.alt_validated_at.is_some() {
+            return;
+        }
+        g.alt_data_bytes += len;
+        let rcvd = g.ledger.get(&(self.server_addr, nat_alt())).map(|l| l.rcvd).unwrap_or(0);
+        let d = g.alt_data_bytes;
+        if d > 3 * rcvd && g.alt_data_excess.is_none_or(|(pd, pr)| d - 3 * rcvd > pd - 3 * pr) {
+            g.alt_data_excess = Some((d, rcvd));
+        }
+    }
+
+    pub fn mark_alt_validated(&self) {
+        let now = self.now_ms();
+        let mut g = self.inner.lock().unwrap();
+        if g.nat_real.is_some() && g.alt_validated_at.is_none() {
+            g.alt_validated_at = Some(now);
         }
     }
 
